@@ -372,6 +372,36 @@ def productive_cyclic_program(rng, max_nodes=10):
     return list(kinds) + [('T', s, t) for s, t in edges], 0
 
 
+def nested_program(rng, depth=3):
+    """bushy trees of decisions, mostly do-all, with invalid leaves at any child position, plus a few shared children:
+    do-all decisions off the path to the target and below it (where _generate, not _forward, runs them)"""
+    kinds, edges = [], []
+    p_all = rng.choice([0.5, 0.7, 0.9])
+    p_inv = rng.choice([0.2, 0.35, 0.5])
+
+    def new(k):
+        kinds.append(k)
+        return len(kinds) - 1
+
+    def grow(n, d):
+        for _ in range(rng.choice([1, 2, 2, 3])):
+            if d > 0 and rng.random() < 0.55 and len(kinds) < 18:
+                c = new(('D', rng.random() < p_all, rng.random() < 0.5, None))
+                edges.append((n, c))
+                grow(c, d - 1)
+            else:
+                edges.append((n, new(('L', rng.random() >= p_inv, None))))
+    root = new(('D', rng.random() < p_all, False, None))
+    grow(root, depth)
+    decs = [i for i, k in enumerate(kinds) if k[0] == 'D']
+    for _ in range(rng.choice([0, 0, 1, 2])):          # sharing (towards later nodes only: no cycles)
+        s = rng.choice(decs)
+        later = [i for i in range(s + 1, len(kinds))]
+        if later:
+            edges.append((s, rng.choice(later)))
+    return list(kinds) + [('T', s, t) for s, t in edges], root
+
+
 def grammar_like_program(rng, max_nt=3):
     """graphs shaped like converted grammars / schemas: choose-one decisions (non-terminals) over do-all decisions
     (sequences) whose items are valid leaves -- the same leaf attached up to three times, as a repetition does --
